@@ -272,12 +272,19 @@ func (w *world) accProbes(ctx sdk.Context, maxDur int64) [][]any {
 	res := [][]any{}
 	for _, d := range w.denoms {
 		for x := int64(0); x <= maxDur; x++ {
-			v := w.App.LockupKeeper.GetPeriodLocksAccumulation(ctx, lockuptypes.QueryCondition{
-				LockQueryType: lockuptypes.ByDuration, Denom: d, Duration: time.Duration(x) * time.Second})
 			n := int64(-1)
-			if v.IsInt64() {
-				n = v.Int64()
-			}
+			func() { // a query that panics is an answer too (and cannot be the right one)
+				defer func() {
+					if r := recover(); r != nil {
+						n = -2
+					}
+				}()
+				v := w.App.LockupKeeper.GetPeriodLocksAccumulation(ctx, lockuptypes.QueryCondition{
+					LockQueryType: lockuptypes.ByDuration, Denom: d, Duration: time.Duration(x) * time.Second})
+				if v.IsInt64() {
+					n = v.Int64()
+				}
+			}()
 			res = append(res, []any{d, x, n})
 		}
 	}
@@ -533,14 +540,19 @@ func (w *world) ask(ctx sdk.Context, q query) (res query) {
 // ---------------------------------------------------------------------------
 // impl -> spec: random histories
 
-var durations = []int64{1, 2, 3, 5, 8}
+var defaultDurations = []int64{1, 2, 3, 5, 8}
 
-const maxProbe = 14
+const defaultMaxProbe = 14
 
 type recorder struct {
-	w   *world
-	rng *rand.Rand
-	tw  *tracelog.Writer
+	// durs / maxProbe: the duration alphabet of this history.  "wide" histories use 36 distinct
+	// durations per denom so that the accumulation sum-tree (fan-out 10) splits into several nodes
+	// and whole buckets drain to zero again.
+	durs     []int64
+	maxProbe int64
+	w        *world
+	rng      *rand.Rand
+	tw       *tracelog.Writer
 	st  stateDoc
 
 	maxEmpty int64
@@ -600,7 +612,7 @@ func (r *recorder) someDur() int64 {
 			return l.Dur + int64(r.rng.Intn(3)) - 1
 		}
 	}
-	return int64(r.rng.Intn(maxProbe + 1))
+	return int64(r.rng.Intn(int(r.maxProbe) + 1))
 }
 
 func (r *recorder) someID() int64 {
@@ -651,7 +663,7 @@ func (r *recorder) observe(head map[string]any) {
 	ctx := r.w.Ctx
 	r.st = r.w.project(ctx)
 	head["st"] = r.st
-	head["acc"] = r.w.accProbes(ctx, maxProbe)
+	head["acc"] = r.w.accProbes(ctx, r.maxProbe)
 	// informational only (not a denomination, not validated): AddTokensToLockByID also writes to the
 	// accumulation store of the synthetic denom of a lock that has no synthetic lock, i.e. ""
 	if v := r.w.App.LockupKeeper.GetPeriodLocksAccumulation(ctx, lockuptypes.QueryCondition{Denom: "", Duration: 0}); v.IsInt64() {
@@ -676,7 +688,7 @@ func (r *recorder) nextCall() call {
 	switch {
 	case x < 28: // MsgLockTokens (creates, or adds to the owner's lock of the same denom and duration)
 		o, d := r.randOwner(), r.randDenom()
-		c := call{A: "lock", O: o, D: d, X: durations[rng.Intn(len(durations))]}
+		c := call{A: "lock", O: o, D: d, X: r.durs[rng.Intn(len(r.durs))]}
 		b := r.st.Bal[o][d]
 		switch y := rng.Intn(20); {
 		case y == 0:
@@ -716,7 +728,7 @@ func (r *recorder) nextCall() call {
 		c := call{A: "extend", O: l.O, ID: l.ID}
 		switch y := rng.Intn(10); {
 		case y < 5:
-			c.X = durations[rng.Intn(len(durations))] // may be shorter or equal: refused
+			c.X = r.durs[rng.Intn(len(r.durs))] // may be shorter or equal: refused
 		case y < 8:
 			c.X = l.Dur + 1 + int64(rng.Intn(4))
 		case y == 8:
@@ -725,8 +737,8 @@ func (r *recorder) nextCall() call {
 			c.X = l.Dur + 1
 			c.O = r.randOwner()
 		}
-		if c.X > maxProbe-1 {
-			c.X = maxProbe - 1
+		if c.X > r.maxProbe-1 {
+			c.X = r.maxProbe - 1
 		}
 		return c
 	case x < 62: // MsgBeginUnlocking: whole / partial (splits) / too much / wrong denom / wrong owner / already unlocking
@@ -863,7 +875,14 @@ func TestRecord(t *testing.T) {
 			}
 		}
 		w := newWorld(t, names, denoms, fund, allowed, 100)
-		r := &recorder{w: w, rng: rng, tw: tw}
+		r := &recorder{w: w, rng: rng, tw: tw, durs: defaultDurations, maxProbe: defaultMaxProbe}
+		if h%4 == 3 {
+			r.durs = []int64{}
+			for x := int64(1); x <= 36; x++ {
+				r.durs = append(r.durs, x)
+			}
+			r.maxProbe = 40
+		}
 		recs = append(recs, r)
 		r.observe(map[string]any{"e": "cfg", "a": "init", "owners": names, "denoms": denoms, "allowed": allowed, "seed": seed, "h": h})
 		for i := 0; i < nops; i++ {
